@@ -1,3 +1,4 @@
+import copy
 from abc import ABCMeta, abstractmethod
 from collections import namedtuple
 from typing import Any, Callable, Dict, List, Type
@@ -160,6 +161,9 @@ class CollectionAttrMutator(metaclass=ABCMeta):
             self.add_items(items)
             return self
         if self.collection and self.prepare_item:
+            # Items are (re)prepared in place: work on a copy of the incoming
+            # collection rather than on the caller's object.
+            self.collection = copy.copy(self.collection)
             self._prepare_items()
         return self
 
